@@ -18,10 +18,11 @@ open SideBySide
 open Wrap (Err)
 
 /-- `adapt_wrap_max_lines_argument`: `WrapConfig.max_lines` for a `--wrap-max-lines` argument;
-`none` = `unlimited` / `∞` / `inf…`. -/
+`none` = `unlimited` / `∞` / `inf…`; a number `n`: what the source does with it (`n + 1` as pinned,
+`n.saturating_add(1)` with notes/fix-wrap-max-lines-overflow.diff — `Generated.wrapMaxLinesOfNumber`). -/
 def maxLinesOfArg : Option Nat → Nat
   | none => Generated.wrapMaxLinesUnlimited
-  | some n => n + Generated.wrapMaxLinesIncrement
+  | some n => Generated.wrapMaxLinesOfNumber n
 
 /-- `Config::max_line_length` as a function of the options `--side-by-side`, `--wrap-max-lines`,
 `--max-line-length`, of the terminal width (`opt.computed.available_terminal_width`) and of
